@@ -306,5 +306,6 @@ class ColumnsTrip(Harness):
         return before != after, 'column settings before save %r, after reload %r' % (before, after)
 
 def harnesses(tier):
-    return [FontKey(tier), FillKey(tier), NumFmtTrip(tier), NumFmtIntern(tier), ColumnsTrip(tier)]
+    from harness import rt
+    return [FontKey(tier), FillKey(tier), NumFmtTrip(tier), NumFmtIntern(tier), ColumnsTrip(tier)] + rt.harnesses_for('C05', tier)
 OPTIONS = {'want_smir': True}
